@@ -466,6 +466,16 @@ func CompoundKind(s Schema, lib bool) *Kind[Tuple] {
 			}
 			return out
 		},
+		Deepen: func(r *rng.R, t Tuple) Tuple {
+			c := t
+			if s.Str {
+				c.S = t.S + string(fromAlphabet(r, smallAlphabet, 1+r.Intn(2)))
+				return c
+			}
+			last := len(s.Fields) - 1
+			c.N[last] = s.Fields[last].canon(t.N[last] ^ 1)
+			return c
+		},
 		Enc:      func(t Tuple) []byte { b, _ := cd.Transform(t); return b },
 		Storable: alwaysStorable[Tuple],
 		HasRange: true,
